@@ -363,8 +363,12 @@ class World:
         self.user_hash = [[h_array(a) for a in arrs] for arrs in self.arrays]
         self.setups = [make_setup(s, self.arrays[i], w["fs"]) for i, s in enumerate(w["setups"])]
         self.algs = []
+        self.user_shared_params = {}  # id -> parameter object that the user handed to more than one algorithm
         for a in w["algs"]:
             self.algs.append(make_alg(a, self.algs))
+            if a.get("share_params_with") is not None and getattr(self.algs[-1], "run_params", None) is not None:
+                # keeps the object alive too, so its id cannot be re-used within this history
+                self.user_shared_params[id(self.algs[-1].run_params)] = self.algs[-1].run_params
         self.st = [AlgState(a) for a in w["algs"]]
         for st, alg in zip(self.st, self.algs):
             st.clean_params = copy.deepcopy(alg.run_params)
@@ -1736,16 +1740,16 @@ def run_case(seed, tier="quick", case=None, known=()):
     if epilogue and not wd.stop:
         _epilogue(wd, len(res["ops"]))
     if not wd.stop:
-        # a parameter object the USER shares between a dropped original and a live algorithm may be changed by
-        # the live algorithm's own run or extraction: that is the user's sharing, not aliasing by persistence
-        live = {id(a.run_params) for a in wd.algs if getattr(a, "run_params", None) is not None}
+        # a parameter object the USER handed to two algorithms may be changed through the other one (its run or
+        # extraction), also after one of them was dropped by a restart: the user's sharing, not aliasing by persistence
+        live = set(wd.user_shared_params)
 
         def _wo_shared(obj, c):
             c = copy.deepcopy(c)
             objs = list((getattr(obj, "algorithms", {}) or {}).values())
             for a, ca in zip(objs, c["algs"]):
                 if id(getattr(a, "run_params", None)) in live:
-                    ca["params"] = "<shared with a live algorithm>"
+                    ca["params"] = "<object the user shares between algorithms>"
             return c
 
         for obj, snap in wd.shadows:
